@@ -122,7 +122,17 @@ func (c *Ctx) Violation(kind, sig, what string, replay interface{}) {
 	c.mu.Unlock()
 }
 
+// InFlight records what is about to be executed, so that a crash of the whole process (a
+// panic in a goroutine the library spawned cannot be recovered) can be attributed to it.
+func (c *Ctx) InFlight(v interface{}) {
+	b, err := json.Marshal(v)
+	if err == nil {
+		_ = os.WriteFile(filepath.Join(c.OutDir, "inflight.json"), b, 0o644)
+	}
+}
+
 func (c *Ctx) Close() error {
+	_ = os.Remove(filepath.Join(c.OutDir, "inflight.json"))
 	if err := c.cases.Flush(); err != nil {
 		return err
 	}
